@@ -196,6 +196,13 @@ pub open spec fn init_out_ok(o: InitOut, a: InitIn, capable: u64, want: u64) -> 
     &&& 4096 <= o.max_write <= 0x10_0000                                          // "write-size limits that fit the transport buffers"
     &&& ((capable & want) & 0x40_0000u64 != 0 ==> o.max_pages as int * 4096 >= o.max_write as int)   // MAX_PAGES
 }
+pub proof fn lemma_kview(e: u64)
+    ensures ({ let lo = e as u32; let hi = (e >> 32) as u32; let f = if hi != 0 { lo | 0x4000_0000u32 } else { lo };
+               ((f as u64) | (if f & 0x4000_0000u32 != 0 { (hi as u64) << 32 } else { 0u64 })) & !0x4000_0000u64 == e & !0x4000_0000u64 })
+{
+    assert(({ let lo = e as u32; let hi = (e >> 32) as u32; let f = if hi != 0 { lo | 0x4000_0000u32 } else { lo };
+               ((f as u64) | (if f & 0x4000_0000u32 != 0 { (hi as u64) << 32 } else { 0u64 })) & !0x4000_0000u64 == e & !0x4000_0000u64 })) by (bit_vector);
+}
 pub open spec fn init_out_len(minor: u32) -> int { if minor < 5 { 8 } else if minor < 23 { 24 } else { 64 } }   // "laid out for the client's minor version"
 pub open spec fn init_reply_is(o: InitOut, a: InitIn, capable: u64, want: u64, u: u64, b: Seq<u8>) -> bool {
     init_out_ok(o, a, capable, want) && b == ok_reply(u, o.sbytes().subrange(0, init_out_len(a.minor)), Seq::<u8>::empty())
@@ -431,7 +438,7 @@ def handler_contract(op, extra_req=(), noreply=False, reply_extra='', want=True)
 NAME_ERR_SPLICE = None
 
 
-VERIFIED_LATER = set(os.environ.get('SRV_EXT', 'init,setxattr,ioctl,batch_forget,setupmapping,removemapping').split(','))
+VERIFIED_LATER = set(os.environ.get('SRV_EXT', 'setxattr,ioctl,batch_forget,setupmapping,removemapping').split(','))
 
 
 def EXT(name):
@@ -638,7 +645,27 @@ impl<'a, S: BitmapSlice> ZeroCopyReader for ZcReader<'a, S> { }
     vu_contract = lambda op: [c.replace('wf_%s(ctx.in_header, ctx.r.rem@) ==>' % op, 'vu_req is Some && wf_%s(ctx.in_header, ctx.r.rem@) ==>' % op)
                               for c in handler_contract(op, reply_extra='vu_req is Some, ')]
     custom += [
-        Fn(SYNC, SRV, 'init', requires=handler_contract('init') + ['forall|p: &InitParams| on_init_params.requires((p,))'], external_body=EXT('init'), splices=[E0], props=['C12'], canary=not EXT('init')),
+        Fn(SYNC, SRV, 'init',
+           requires=handler_contract('init') + [
+               'forall|p: &InitParams| on_init_params.requires((p,))',
+               # the version recorded for later requests is the client's (the store is an effect on &self: capability)
+               '''ctx.r.rem@.len() >= 16 ==> forall|v: ServerVersion| ({ let a = <InitIn as ByteValued>::sdecode(ctx.r.rem@.subrange(0, 16)); v.major == a.major && v.minor == a.minor }) ==> #[trigger] self.vers.may_store(v) // [C12.vers]'''],
+           external_body=EXT('init'), props=['C12'], canary=not EXT('init'),
+           splices=[('^', 'after', 'let ghost a0 = <InitIn as ByteValued>::sdecode(rem0.subrange(0, 16)); proof { reveal(errno_reply); assert((1u32 << 20) == 0x10_0000u32) by (bit_vector); }'),
+                    E0,
+                    ('return ctx.reply_ok(Some(out), None);', 'before',
+                     'proof { assert(init_major_reply_is(out, hd0.unique, ok_reply(hd0.unique, out.sbytes(), Seq::<u8>::empty()))); }'),
+                    ('let capable = FsOptions::from_bits_truncate(flags_u64);', 'after',
+                     'proof { if rem0.len() >= 64 { assert(rem0.skip(16).subrange(0, 48) =~= rem0.subrange(16, 64)); } assert(capable.bits == init_capable(a0, rem0)); }'),
+                    ('if enabled.contains(FsOptions::BIG_WRITES) {', 'before', 'proof { assert(256u32 * 4096u32 == 0x10_0000u32); }'),
+                    ('self.vers.store(Arc::new(version));', 'before',
+                     '''proof {
+                    lemma_kview(enabled_flags);
+                    assert(forall|e: u64| (e & 0x40_0000u64 == 0x40_0000u64) == (e & 0x40_0000u64 != 0)) by (bit_vector);
+                    assert(init_out_ok(out, a0, capable.bits, want.bits)); // [C12.init_out.enabled_limits]
+                    assert(out.sbytes().subrange(0, 64) =~= out.sbytes());
+                    assert(init_reply_is(out, a0, capable.bits, want.bits, hd0.unique, ok_reply(hd0.unique, out.sbytes().subrange(0, init_out_len(minor)), Seq::<u8>::empty())));
+                }''')]),
         Fn(SYNC, SRV, 'setxattr', requires=handler_contract('setxattr'), external_body=EXT('setxattr'), splices=[E0], props=['C01']),
         Fn(SYNC, SRV, 'ioctl', requires=handler_contract('ioctl'), external_body=EXT('ioctl'), splices=[E0], props=['C01']),
         Fn(SYNC, SRV, 'batch_forget', requires=handler_contract('batch_forget', noreply=True), external_body=EXT('batch_forget'), splices=[E0], props=['C01']),
@@ -659,8 +686,9 @@ impl<'a, S: BitmapSlice> ZeroCopyReader for ZcReader<'a, S> { }
                      '''r.rem@.len() >= 40 ==> ({ let hd = <InHeader as ByteValued>::sdecode(r.rem@.subrange(0, 40));
                         uniq(w.id@) == hd.unique && (may_reply(w.id@) <==> (hd.opcode != 2 && hd.opcode != 42)) }) // [C01.forget]''',
                      'want_msg(&self.fs, vu_req is Some, r.rem@) // [C02.dispatch]',
+                     '''r.rem@.len() >= 56 ==> forall|v: ServerVersion| ({ let a = <InitIn as ByteValued>::sdecode(r.rem@.subrange(40, 56)); v.major == a.major && v.minor == a.minor }) ==> #[trigger] self.vers.may_store(v) // [C12.vers]''',
                      'forall|b: Seq<u8>| #[trigger] emit_ok(w.id@, b) <==> reply_msg(&self.fs, self.vers.cur().minor, vu_req is Some, r.rem@, b) // [C03.dispatch]'],
-           splices=[('^', 'after', 'broadcast use axiom_sbytes_len, lemma_err_reply_frame; let ghost req0 = r.rem@; proof { reveal(errno_reply); assert((1u32 << 20) == 0x10_0000u32) by (bit_vector); assert(MAX_BUFFER_SIZE == 0x10_0000u32); }')],
+           splices=[('^', 'after', 'broadcast use axiom_sbytes_len, lemma_err_reply_frame; let ghost req0 = r.rem@; proof { if req0.len() >= 56 { assert(req0.skip(40).subrange(0, 16) =~= req0.subrange(40, 56)); } reveal(errno_reply); assert((1u32 << 20) == 0x10_0000u32) by (bit_vector); assert(MAX_BUFFER_SIZE == 0x10_0000u32); }')],
            props=['C01'], canary=True),
     ]
     if only:
